@@ -11,6 +11,7 @@ import RFV.Model.Fp
 import RFV.Model.Cache
 import RFV.Model.Decision
 import RFV.Model.Exec
+import RFV.Model.Ops
 
 open RFV
 
@@ -173,6 +174,10 @@ def answer (line : String) : String :=
         s!"adv={adv} | " ++ "; ".intercalate ((calls al en len s0 s1 adv).map Call.text)
       | _, _ => "bad-op"
     | _ => "bad-op"
+  | ["ops", "scalar", n] =>
+    match n.toNat? with
+    | some n => fmtExcept ((planScalar n).map (fun r => toString r.ops))
+    | none => "bad-op"
   | ["decide", cfa, cfs, mask, ty] =>
     match cfa.toNat?, cfs.toNat?, mask.toNat?, parseTy ty with
     | some cfa, some cfs, some m, some ty =>
